@@ -208,4 +208,4 @@ Definition hw_x_gates (n k : nat) : list nat := map (fun j => n - 1 - j) (seq 0 
 
 (* strings of weight k as integers (text reversed = big-endian), rank in sorted order = data index *)
 Definition int_of_string (s : bits) : nat :=   (* int(''.join(string[::-1]), 2) *)
-  fold_left (fun acc b => 2 * acc + (if b then 1 else 0)) (rev s) 0.
+  fold_left (fun (acc : nat) (b : bool) => 2 * acc + (if b then 1 else 0)) (rev s) 0.
